@@ -527,4 +527,38 @@ fn distribution_asset_change_probe(out: &mut Out) {
             }
         }
     }
+    // claims across the change: an epoch funded in uwhale is still inside the grace window when the asset becomes uusdc and an epoch funded in
+    // uusdc follows; a bonder then claims both (before anything is rolled over): per asset, what she is paid is the fall of the epochs'
+    // available amounts, and the distributor still holds what its epochs account for
+    {
+        let mut x = Exec::new(3, DEC_ONE);
+        let mut scratch = Out::new(&format!("{}/scratch_dist", out.dir));
+        x.exec(&mut scratch, t0, &Ev::Bond { who: 0, denom: 0, amount: 1_000 });
+        x.exec(&mut scratch, t0, &Ev::Bond { who: 1, denom: 1, amount: 2_000 });
+        x.exec(&mut scratch, t0, &Ev::NewEpoch { sender: 1, fee: 0, collector_ok: true });          // the bonders' weight starts to count
+        x.exec(&mut scratch, t0 + d, &Ev::NewEpoch { sender: 1, fee: 900_000, collector_ok: true });
+        let (owner, dist, coll) = (Addr::unchecked(OWNER), x.w.distributor.clone(), x.w.collector.clone());
+        let replay = json!({"kind": "distributor_distribution_asset_change", "grace_period": 3,
+            "script": "two bonders; an empty epoch; a day later NewEpoch with 900000 uwhale; UpdateConfig{distribution_asset: uusdc}; 600000 uusdc reach the collector; NewEpoch; alice claims both epochs"});
+        let r = x.w.app.execute_contract(owner, dist.clone(), &fd::ExecuteMsg::UpdateConfig { owner: None, bonding_contract_addr: None, fee_collector_addr: None,
+            grace_period: None, distribution_asset: Some(native("uusdc")), epoch_config: None }, &[]);
+        let fed = x.w.app.send_tokens(Addr::unchecked("donor"), coll, &[coin(600_000, "uusdc")]);
+        x.w.set_time(t0 + 2 * d);
+        if r.is_ok() && fed.is_ok() && x.w.new_epoch(U[1]).is_ok() {
+            let cur = x.w.q_current_epoch().id.u64();
+            let avail = |x: &Exec, a: &str| -> u128 { (1..=cur).map(|id| asset_amount(&x.w.q_epoch(id).available, a)).sum() };
+            let before: Vec<(u128, u128)> = ["uwhale", "uusdc"].iter().map(|a| (avail(&x, a), x.w.bal(U[0], a))).collect();
+            x.w.set_time(t0 + 2 * d + 1_000_000_000);
+            let claimed = x.w.claim(U[0]).is_ok();
+            out.monitor_evals += 1;
+            out.count(if claimed { "dist_asset_change:claim_ok" } else { "dist_asset_change:claim_rejected" });
+            for (i, a) in ["uwhale", "uusdc"].iter().enumerate() {
+                let (av1, b1) = (avail(&x, a), x.w.bal(U[0], a));
+                let (fall, paid) = (before[i].0 as i128 - av1 as i128, b1 as i128 - before[i].1 as i128);
+                if std::env::var("WWVERIF_DEBUG").is_ok() { eprintln!("asset-change claim: {} available before {} fell {} paid {}", a, before[i].0, fall, paid); }
+                if fall != paid { out.monitor_fail("C09", &format!("a claim across a change of the distribution asset: the epochs' available {} fell by {} but the claimer was paid {}", a, fall, paid), replay.clone()); }
+                if x.w.bal(dist.as_str(), a) < av1 { out.monitor_fail("C09", &format!("after the claim the distributor holds {} {} but its epochs account for {}", x.w.bal(dist.as_str(), a), a, av1), replay.clone()); }
+            }
+        } else { out.count("dist_asset_change:claims_part_not_reached"); }
+    }
 }
